@@ -206,6 +206,11 @@ def corpus():
            [("trunc_write", 2, False, "a.toml", "", 50, 40), ("trunc_write", 2, False, "b.toml", "", 0, 40),
             ("append", 3, False, "readme.txt", "", 0, 5), ("append", 2, False, "a.toml", "", 0, 5),
             ("trunc_write", 2, False, "b.toml", "", 1, 40)], delay=150),
+        # a watcher that stays alive for 12 s with one write per second (TOML and non-TOML alternating): whatever is driven by uptime
+        # (periodic timers) gets a chance to act; every TOML write must still be announced, the others not, and the stream must end
+        mk("aged-12s", [(0, False, "a.toml"), (1, False, "notes.txt"), (2, False, "b.toml")],
+           [(("append", 0, False, "a.toml", "", 1000, 5), ("append", 1, False, "notes.txt", "", 1000, 5),
+             ("trunc_write", 2, False, "b.toml", "", 1000, 9))[i % 3] for i in range(12)]),
         mk("other-operations", [(1, False, "a.toml"), (1, True, "n.toml")],
            [("create_empty", 1, False, "new.toml", "", 100, 0), ("chmod", 1, False, "a.toml", "", 560, 0),
             ("rename", 1, False, "new.toml", "renamed.toml", 560, 0), ("append", 1, True, "n.toml", "", 560, 5),
